@@ -8,7 +8,8 @@ from check import standard_run, generic_replay
 from project import cfg_proj
 
 MODULE = "TraceAutomata"
-CHARS = ["a", "b", "é", "ü", "€", "\U0001f600", "ñ"]      # 1-, 2-, 3-, 4-byte characters
+# 1-, 2-, 3-, 4-byte characters; several 3-byte characters share continuation bytes but not the lead byte (and vice versa)
+CHARS = ["a", "b", "é", "ü", "€", "\U0001f600", "ñ", "ア", "—", "、", "₭", "\U0001f601"]
 
 
 def generate(rng, tier, shard, nshards):
